@@ -18,6 +18,7 @@ const (
 
 func init() {
 	register("C04", func(c *core.Ctx, tier string) {
+		mapSentinelNotZeroSize(c, "C04.9")
 		serverEffects(c, "C04.8")
 		c04Writers(c)
 		c04Pairing(c)
